@@ -111,6 +111,8 @@ def oracle(case: dict):
                 tgt_i, tgt_m = s, model
                 for p in path:
                     tgt_i, tgt_m = tgt_i[p], tgt_m[p]
+                if k in tgt_m:
+                    continue            # additions only: an existing entry (possibly a dict on another path) stays
                 tgt_i[k] = copy.deepcopy(v)
                 tgt_m[k] = copy.deepcopy(v)
             s.order_keys()
